@@ -76,11 +76,15 @@ class Deep:
         """Shutdown deep."""
         if not self.started:
             return
-        self.trigger_handler.shutdown()
-        self.task_handler.flush()
-        self.poll.shutdown()
-        for plugin in self.config.plugins:
-            plugin.shutdown()
+        # a failure in one step (e.g. a plugin that fails to shut down) must not stop us from doing the others
+        steps = [("trigger handler", self.trigger_handler.shutdown), ("task handler", self.task_handler.flush),
+                 ("poll", self.poll.shutdown)]
+        steps += [(plugin.name, plugin.shutdown) for plugin in self.config.plugins]
+        for name, step in steps:
+            try:
+                step()
+            except Exception:
+                deep.logging.exception("Failed to shutdown %s", name)
         deep.logging.info("Deep is shutdown.")
         self.started = False
 
